@@ -59,14 +59,15 @@ SAVED_NAME = "X"
 
 BOUNDS = {
     "quick": {"depth": 4, "max_models": 3, "edits": ["populate", "ref", "value"],
-              "reads": [["good", None], ["good", "Y"], ["bad", None]],
-              "rename_to": [["X", False], ["X", True], ["Y", False], ["Y", True], ["X_BAK1", True]],
+              "reads": [["good", None], ["good", "Y"], ["bad", None], ["bad0", None]],
+              "rename_to": [["X", False], ["X", True], ["Y", False], ["Y", True],
+                            ["X_BAK1", False], ["X_BAK1", True]],
               "prefix": 2},
     "thorough": {"depth": 5, "max_models": 3, "edits": ["populate", "ref", "value", "cells", "space"],
                  "reads": [["good", None], ["good", "Y"], ["bad", None], ["bad0", None], ["bad", "Y"]],
                  "rename_to": [["X", False], ["X", True], ["Y", False], ["Y", True],
                                ["X_BAK1", False], ["X_BAK1", True]],
-                 "prefix": 2},
+                 "prefix": 3},
 }
 
 
@@ -257,9 +258,9 @@ def apply_impl(w, op):
         if kind == "value":
             return observe(lambda: m.S.f.__setitem__(0, 10)), None
         if kind == "cells":
-            return observe(lambda: m.S.new_cells("g", formula="lambda x: f(x) * 2") and None), None
+            return observe(lambda: (m.S.new_cells("g", formula="lambda x: f(x) * 2"), None)[1]), None
         if kind == "space":
-            return observe(lambda: m.new_space("T") and None), None
+            return observe(lambda: (m.new_space("T"), None)[1]), None
     if k == "xref":
         b = w.handles[w.idx_of(op["to"])]
         return observe(lambda: setattr(m, "xr", b.S.f)), None
@@ -600,20 +601,26 @@ def tally(op, obs, counts, last=None):
 
 
 def work_items(tier, seed):
+    """All realisable histories of b["prefix"] ops (shorter ones where a history is terminal)."""
     b = BOUNDS[tier]
     items = []
     with Scratch() as sc:
-        reset_world()
-        w0 = World(sc)
-        for op1 in alphabet(w0, b):
-            w, vs, obss, _ = replay([op1], sc, b, check="none")
-            ops2 = alphabet(w, b)
-            if b["prefix"] < 2 or not ops2:
-                items.append({"prefix": [op1]})
-                continue
-            for op2 in ops2:
-                items.append({"prefix": [op1, op2]})
-        reset_world()
+        try:
+            level = [[]]
+            for d in range(b["prefix"]):
+                nxt = []
+                for h in level:
+                    w, vs, obss, _ = replay(h, sc, b, check="all")
+                    ops = [] if vs else alphabet(w, b)
+                    if not ops:
+                        if h:
+                            items.append({"prefix": h})      # terminal (violating / no applicable op)
+                        continue
+                    nxt.extend(h + [op] for op in ops)
+                level = nxt
+            items.extend({"prefix": h} for h in level)
+        finally:
+            reset_world()
     return items
 
 
@@ -728,9 +735,10 @@ def script(case):
                     if w.ref[i]["xr"] is not None:
                         s += "; print(%s.S.k(1))" % var
                 vs, obs = step(w, op, False)
+                s = s + "    # " + jd(op)
                 if obs[0] == "exc":
                     s = "try:\n    %s\nexcept Exception as e:\n    print('raised', type(e).__name__)" % s
-                lines.append(s + "    # " + jd(op))
+                lines.append(s)
             nh = len(w.handles)
         finally:
             reset_world()
